@@ -611,8 +611,8 @@ def rule_norm_route(ctx, only=None, floor=14):
             continue
         if b.get("impl_trait") in ("std::cmp::PartialEq", "std::cmp::PartialOrd", "std::cmp::Ord", "std::hash::Hash", "std::fmt::Debug", "std::clone::Clone"):
             continue
-        if any(b["path"].startswith(s) for s in skip_bodies):
-            continue
+        if any(b["path"].lstrip("<").startswith(s) for s in skip_bodies):
+            continue        # (`<utf32_str::Utf32String as From<&str>>::from` is a body of utf32_str too)
         fn = fn_of(b)
         sites_ = []
         for bi, t in fn.calls(lambda t: str(t.get("fn")).endswith("PartialEq::eq") or str(t.get("fn")).endswith("PartialEq::ne") or str(t.get("fn")).endswith("Iterator::eq")):
